@@ -84,11 +84,13 @@ theorem C03_escalation_is_sigkill (rec : Rec) (u p : Nat) (wt : Waiter) (s : Sta
 
 /-- **a SIGKILL that is refused (EPERM) has still been attempted at the timeout, and it fails the kill**: the
     `AccessDenied` of `send_signal_process(process, SIGKILL, recursive=True)` escapes from `kill_process` — the
-    coroutine ends with that exception right after the attempt, `process.stopping` is left as it is and
-    `Process.stop()` is not called. -/
+    coroutine ends with that exception right after the attempt; since fix 60e14d0 `process.stopping` is cleared
+    first (`except Exception: process.stopping = False; raise`), so a later kill of that worker does not wait for
+    this one; `Process.stop()` is not called. -/
 theorem C03_escalation_denied (rec : Rec) (u p : Nat) (wt : Waiter) (s : State)
     (hden : (sendSignalProcess u p 9 true s).1 = false) :
-    killFinish rec u p true wt s = deliver rec wt accessDenied (sendSignalProcess u p 9 true s).2 := by
+    killFinish rec u p true wt s =
+      deliver rec wt accessDenied (setObjStopping p false (sendSignalProcess u p 9 true s).2).2 := by
   unfold killFinish
   simp only [bind]
   erw [if_pos rfl]
